@@ -12,7 +12,15 @@ cd $WT
 res=""
 git apply $PATCH && res="$res apply=ok" || res="$res apply=FAIL"
 go build ./... && res="$res build=ok" || res="$res build=FAIL"
-go test -vet=off -count=1 $(go list ./... | grep -v test/integration) > /tmp/sv/$ID.suite.log 2>&1 && res="$res suite=pass" || res="$res suite=FAIL"
+if go test -vet=off -count=1 $(go list ./... | grep -v test/integration) > /tmp/sv/$ID.suite.log 2>&1; then res="$res suite=pass"; else
+  # a few tests of the existing suite are timing dependent and fail under load on the unchanged tree too: re-run the failed packages alone
+  failed=$(grep '^FAIL' /tmp/sv/$ID.suite.log | awk '{print $2}' | grep / | sort -u)
+  ok=1
+  for p in $failed; do
+    go test -vet=off -count=1 $p >> /tmp/sv/$ID.suite.log 2>&1 || go test -vet=off -count=1 $p >> /tmp/sv/$ID.suite.log 2>&1 || ok=0
+  done
+  [ $ok = 1 ] && [ -n "$failed" ] && res="$res suite=pass(after-rerun-of:$(echo $failed | tr ' ' ','))" || res="$res suite=FAIL"
+fi
 cp $DEMO $TARGET
 timeout 300 go test -vet=off -count=1 "$@" > /tmp/sv/$ID.demo_with.log 2>&1 && res="$res demo_with_patch=PASS(unexpected)" || res="$res demo_with_patch=fails"
 git apply -R $PATCH
